@@ -176,6 +176,12 @@ def _check_token_level(e, w, toks, bad, lexerr, rt, gtext, engine, superset, lal
         if not isinstance(e, UnexpectedCharacters) or e.pos_in_stream != lexerr:
             raise Violation('expected UnexpectedCharacters at the first character no terminal matches', grammar=gtext, text=w, engine=eng,
                             got=[type(e).__name__, getattr(e, 'pos_in_stream', None)], want=lexerr)
+        if engine[0] == 'earley':
+            # Earley with the basic lexer: the allowed set contains every terminal that can legally come next
+            nxt = rt.expected(len(toks)) if rt.viable(len(toks)) else set()
+            if not nxt <= set(e.allowed or ()):
+                raise Violation('allowed set of the lexing error misses a terminal that can legally come next', grammar=gtext, text=w, engine=eng,
+                                got=sorted(e.allowed or ()), want_superset_of=sorted(nxt), pos=lexerr)
         return
     else:
         # the whole token sequence is a proper prefix of a sentence
